@@ -374,6 +374,9 @@ thread_local! { static FIRST: std::cell::RefCell<Option<(SendOutcome, usize, Vec
 
 pub fn run(sc: &Value) -> Vec<String> {
     let req = &sc["req"];
+    if cfg!(feature = "min") && matches!(gs(&req["body"], "kind"), "json" | "json_streaming" | "form" | "multipart") {
+        return vec![]; // body kinds of features this build does not have
+    }
     let settings = &sc["settings"];
     let nodes: Vec<Value> = ga(sc, "nodes").to_vec();
     let seed = gu(sc, "seed") as u64;
@@ -526,6 +529,7 @@ pub fn run(sc: &Value) -> Vec<String> {
         if let Some(m) = guo(settings, "maxRedir") {
             rb = rb.max_redirections(m as u32);
         }
+        #[cfg(not(feature = "min"))]
         if let Some(c) = settings.get("compress").and_then(|x| x.as_bool()) {
             rb = rb.allow_compression(c);
         }
@@ -612,9 +616,13 @@ pub fn run(sc: &Value) -> Vec<String> {
                 let f = std::fs::File::open(&tmpfile).unwrap();
                 fin(rb.file(f))
             }
+            #[cfg(not(feature = "min"))]
             "json" => fin(rb.json(&json_value(len, seed)).map_err(|e| err_kind(&e))?),
+            #[cfg(not(feature = "min"))]
             "json_streaming" => fin(rb.json_streaming(json_value(len, seed))),
+            #[cfg(not(feature = "min"))]
             "form" => fin(rb.form(&form_pairs(len, seed)).map_err(|e| err_kind(&e))?),
+            #[cfg(not(feature = "min"))]
             "multipart" => {
                 let data = payload("bytes", seed, len);
                 let mp = attohttpc::MultipartBuilder::new()
@@ -654,7 +662,8 @@ pub fn run(sc: &Value) -> Vec<String> {
     };
     let defaults = json!({"kind": if gs(&body_spec, "kind").is_empty() { "empty" } else { gs(&body_spec, "kind") },
         "before": lower_ops(ga(req, "headers")), "after": lower_ops(ga(req, "headers_after")),
-        "compress": settings.get("compress").and_then(|x| x.as_bool()).unwrap_or(true),
+        // (without the compression feature nothing is ever announced)
+        "compress": !cfg!(feature = "min") && settings.get("compress").and_then(|x| x.as_bool()).unwrap_or(true),
         // a user-defined body whose source fails at a write call: what it had handed over before
         "bodyFails": gu(&body_spec, "fail_at") > 0,
         "failSent": ga(&body_spec, "writes").iter().take(gu(&body_spec, "fail_at").saturating_sub(1)).map(|x| x.as_u64().unwrap() as usize).sum::<usize>().min(gu(&body_spec, "len")),
